@@ -231,6 +231,31 @@ def run(tier, seed):
             except Exception:
                 canonical = False
             run_one(hdr_at_ed + item, "hostile-cbor-extensions-announced-but-absent", "reject" if canonical else None)
+    # CBOR items that cbor2 turns into rich Python objects (dates, date-times, UUIDs, decimals, fractions, IP addresses, sets, regular expressions, MIME messages, bignums):
+    # an item that re-encodes to itself is well-formed extension data / a well-formed key member, and the parse reports the very bytes
+    rich = ["d903ec6a323032362d31302d3031", "d8641a00004e20", "c074323032362d31302d30315431323a30303a30305a", "c11a6553f100", "c1fb41d954fc40000000", "d82550000102030405060708090a0b0c0d0e0f",
+            "c48221196ab3", "c5822003", "d81e820103", "d9010283010203", "d9010444c0a80001", "d9010450200100000000000000000000000000001", "c249010000000000000000", "c349010000000000000000",
+            "d8236161", "d820736874747073a2f2f6578616d706c652e636f6d".replace("a2f2f", "3a2f2f"), "d82166616263", "d903ec6a323032362d30322d3330"]
+    good_key = cbor2.dumps({1: 2, 3: -7, -1: 1, -2: bytes(32), -3: bytes(32)})
+    for hx in rich:
+        try:
+            item = bytes.fromhex(hx)
+            canonical = cbor2.dumps(cbor2.loads(item)) == item
+        except Exception:
+            continue
+        if not canonical:
+            continue
+        rp_ = rng.randbytes(32)
+        ext = cbor2.dumps({"x": 0})[:-1] + item          # {"x": <item>}
+        run_one(rp_ + b"\x81" + b"\x00\x00\x00\x07" + ext, "rich-cbor-extension", {"rp": rp_, "flags": 0x81, "count": 7, "att": None, "ext": ext})
+        key = good_key[:1].replace(b"\xa5", b"\xa6") + good_key[1:] + cbor2.dumps("note") + item      # the key map with one more member holding the item
+        run_one(rp_ + b"\xc1" + b"\x00\x00\x00\x07" + bytes(16) + b"\x00\x02id" + key + ext, "rich-cbor-key-member", {"rp": rp_, "flags": 0xC1, "count": 7, "att": (bytes(16), b"id", key), "ext": ext})
+    # shareable values (tag 28) marked inside the KEY and referenced (tag 29) from the EXTENSION item: the two items are decoded on their own - the extension item alone
+    # has nothing to refer to
+    for marked in (b"\xd8\x1c\x58\x20" + bytes(range(32)), b"\xd8\x1c\x01"):
+        for ref in (b"\xd8\x1d\x00", b"\xa1\x61\x61\xd8\x1d\x00", b"\x81\xd8\x1d\x00"):
+            key = b"\xa5\x01\x02\x03\x26\x20\x01\x21" + marked + b"\x22\x58\x20" + bytes(32)
+            run_one(rng.randbytes(32) + b"\xc1" + b"\x00\x00\x00\x01" + bytes(16) + b"\x00\x02id" + key + ref, "shared-reference-from-extensions-into-the-key", "reject")
     # the byte string may arrive as a view into a larger buffer (a window of the attestation object, of a network buffer): the result is that of the bytes it covers
     for i in range(40 if quick else 400):
         b, exp = cborgen.layout(rng)
